@@ -587,7 +587,7 @@ func TestC20(t *testing.T) {
 	dir := outDir(t)
 	rep := newReport("C20", "the real KeyStorage with four real x25519 OpenPGP key pairs and a random master key: random sequences of initialise / add-slot / delete-slot / get / marshal+unmarshal with right, wrong and empty ids and keys, compared op by op (success, error tag, 'is the original master key') with the model; "+
 		"then one corruption of the serialized form (blob bit-flip, blob emptied, slot removed, phantom slot with empty or copied blob, slot renamed, blob boundary shifted, tag altered/emptied, version, algorithm), retrieval through every slot with its own key pair, and further API calls; "+
-		"Go-side monitors: live slots recover the original key, nobody else does, guards hold, any retrieval that still succeeds after a corruption is a violation; non-trivial = an error, deletion, reload or corruption occurred")
+		"then every slot of a 2..4-slot storage deleted by concurrent callers, the observed results replayed on the model in a witness order; Go-side monitors: live slots recover the original key, nobody else does, guards hold (also under concurrent deletion), any retrieval that still succeeds after a corruption is a violation; non-trivial = an error, deletion, reload or corruption occurred")
 
 	var cases []ksCase
 
@@ -653,8 +653,92 @@ func TestC20(t *testing.T) {
 		jl = append(jl, map[string]any{"case": c})
 	}
 
+	// ---- concurrent callers: every slot of a 2..4-slot storage deleted (and read) at once. The calls must behave like
+	// SOME sequence of the model's operations: the observed results are replayed on the model in a witness order
+	// (successful deletions in completion order, then the refused ones), and the guards are monitored directly ----
+	if os.Getenv("VERIF_REPLAY") == "" {
+		for it := range tier(24, 400) {
+			n := 2 + it%3
+			ks := &keystorage.KeyStorage{}
+
+			var pre []string
+
+			slot := func(i int) string { return fmt.Sprintf("s%d", i+1) }
+
+			if err := ks.Initialize(master, slot(0), keys.pub[0]); err != nil {
+				t.Fatal(err)
+			}
+
+			pre = append(pre, fmt.Sprintf("(KInit N %s %s %s 1, %s)", coqBytes(master), coqAtom(slot(0)), coqKP(0), ksErrCoq(nil)))
+
+			for i := 1; i < n; i++ {
+				if err := ks.AddKeySlot(slot(i), keys.pub[i], slot(0), keys.priv[0]); err != nil {
+					t.Fatal(err)
+				}
+
+				pre = append(pre, fmt.Sprintf("(KAdd N %s %s 2 %s %s, %s)", coqAtom(slot(i)), coqKP(i), coqAtom(slot(0)), coqKP(0), ksErrCoq(nil)))
+			}
+
+			type done struct {
+				i   int
+				err error
+			}
+
+			start := make(chan struct{})
+			res := make(chan done, n)
+
+			for i := range n {
+				go func() {
+					<-start
+
+					res <- done{i, ks.DeleteKeySlot(slot(i), keys.priv[i])}
+				}()
+			}
+
+			close(start)
+
+			var okOps, failOps []string
+
+			deleted := map[int]bool{}
+
+			for range n {
+				d := <-res
+				row := fmt.Sprintf("(KDelete N %s %s, %s)", coqAtom(slot(d.i)), coqKP(d.i), ksErrCoq(d.err))
+
+				if d.err == nil {
+					okOps = append(okOps, row)
+					deleted[d.i] = true
+				} else {
+					failOps = append(failOps, row)
+				}
+			}
+
+			replay := map[string]any{"concurrent_deletes": n, "deleted": len(deleted)}
+			rep.count(fmt.Sprint("conc", it), true)
+			rep.hit("concurrent_deletes")
+
+			if len(deleted) >= n {
+				rep.violateKey(len(cases)+it, "guard:concurrent-last-slot", fmt.Sprintf("guard: %d concurrent DeleteKeySlot calls on a %d-slot storage all succeeded: the last slot was deleted and no key pair recovers the master key", n, n), replay)
+			}
+
+			for i := range n {
+				k, err := ks.GetMasterKey(slot(i), keys.priv[i])
+				if deleted[i] && err == nil {
+					rep.violateKey(len(cases)+it, "recovery:concurrent-deleted-slot", "recovery: a slot whose deletion was acknowledged still returns the master key", replay)
+				}
+
+				if !deleted[i] && (err != nil || !bytes.Equal(k, master)) {
+					rep.violateKey(len(cases)+it, "recovery:concurrent-live-slot", fmt.Sprintf("recovery: after concurrent deletions the surviving slot %q does not recover the master key: %v", slot(i), err), replay)
+				}
+			}
+
+			f.add(fmt.Sprintf("(%s, %s, TNone, [], [])", coqBytes(master), coqList(append(append(pre, okOps...), failOps...))))
+			jl = append(jl, replay)
+		}
+	}
+
 	f.finishSharded(t, dir, rep, jl, 400)
-	rep.Assumptions = append(rep.Assumptions, "OpenPGP encryption/decryption and HMAC-SHA256 behave as their idealised specification (trusted libraries); protobuf (de)serialisation of the storage is C18's subject")
+	rep.Assumptions = append(rep.Assumptions, "concurrent callers are sampled (free-running goroutines), not enumerated: the model's operations are atomic, the storage's mutex is what makes the code's so", "OpenPGP encryption/decryption and HMAC-SHA256 behave as their idealised specification (trusted libraries); protobuf (de)serialisation of the storage is C18's subject")
 	rep.write(t, dir)
 }
 
